@@ -7,6 +7,7 @@ package main
 
 import (
 	"fmt"
+	"github.com/hneemann/parser2/value"
 	"math/rand"
 	"os"
 	"strings"
@@ -168,7 +169,7 @@ type pipeCase struct {
 }
 
 func runC06(c *Ctx) {
-	c.rule = "pipelines numbers(N) -> 1..6 lazy stages (map, accept, combine, combine3, combineN, iir, iirCombine, number, compact, merge, top, skip, fsm, + concatenation; closures with local lets) -> terminal (reduce, mapReduce, sum, size, string, first/top, last, minMax, visit, order, groupByInt, multiUse), N in 0..2000, evaluated in a -race worker under a cost profile (slow = 300µs host function in every map/accept closure: switch at element 12; slowFirst / fastFirst: the switch is decided against the later cost) x GOMAXPROCS in {1,2,4,16} and compared with the same pipeline under the all-fast profile; plus forced arrival orders (host function gate: the results of the 2..15 items behind the switch arrive in a prescribed permutation, with a failing or rejected item and a consumer stopping anywhere); plus multiUse with consumers returning results of 20 shapes (lazy lists inside maps and lists at any position, failing elements) against the direct application of the consumers; a race report, a crash, a hang or a different outcome is a violation; non-trivial = distinct pipeline in which a parallel stage actually switched (>1 goroutine executed the slow host function) and that has a closure-calling stage besides it"
+	c.rule = "pipelines numbers(N) -> 1..6 lazy stages (map, accept, combine, combine3, combineN, iir, iirCombine, number, compact, merge, top, skip, fsm, + concatenation; closures with local lets) -> terminal (reduce, mapReduce, sum, size, string, first/top, last, minMax, visit, order, groupByInt, multiUse), N in 0..2000, evaluated in a -race worker under a cost profile (slow = 300µs host function in every map/accept closure: switch at element 12; slowFirst / fastFirst: the switch is decided against the later cost) x GOMAXPROCS in {1,2,4,16} and compared with the same pipeline under the all-fast profile; plus forced arrival orders (host function gate: the results of the 2..15 items behind the switch arrive in a prescribed permutation, with a failing or rejected item and a consumer stopping anywhere); plus multiUse with consumers returning results of 20 shapes (lazy lists inside maps and lists at any position, failing elements) against the direct application of the consumers; a race report, a crash, a hang or a different outcome is a violation; the sequential run itself is compared with the reference semantics over the eager library specification of C07; non-trivial = distinct pipeline in which a parallel stage actually switched (>1 goroutine executed the slow host function) and that has a closure-calling stage besides it"
 	c.assume = append(c.assume, "data-race freedom and real scheduling are runtime behaviour: decided by the Go race detector on the explored schedules, not proved; the iterator library is modelled (collector, stack ownership), not verified")
 	n := c.Pick(500, 4000)
 	profiles := []string{"slow", "slow", "slowFirst", "fastFirst"}
@@ -240,8 +241,23 @@ func runC06(c *Ctx) {
 		c.Count("profile:" + profile)
 		id := len(corpus) + i
 		pc := &pipeCase{profile: profile, gmp: gmps[c.rng.Intn(len(gmps))], par: g.parStages > 0, sides: g.sides}
-		pc.fast = &workerCase{id: fmt.Sprintf("f%d", id), a: 0, flags: "opt", src: fastB.String()}
-		pc.prof = &workerCase{id: fmt.Sprintf("p%d", id), a: 0, flags: "opt", src: profB.String()}
+		fastSrc, profSrc := fastB.String(), profB.String()
+		switch c.rng.Intn(4) {
+		case 0:
+			// the pipeline runs above live locals of the evaluation, which are read afterwards
+			c.Count("wrapper:live-locals")
+			w := func(p string) string { return "let k1 = a + 7; let k2 = k1 * 3; let r = " + p + "; [r, k1, k2].string()" }
+			fastSrc, profSrc = w(fastSrc), w(profSrc)
+		case 1:
+			// the result is looked at twice (a failed materialisation must fail again, a good one stays)
+			c.Count("wrapper:looked-at-twice")
+			w := func(p string) string {
+				return "let r = " + p + "; [try string(r).len() catch 0 - 1, try string(r).len() catch 0 - 2, try string(r) catch \"E\"].string()"
+			}
+			fastSrc, profSrc = w(fastSrc), w(profSrc)
+		}
+		pc.fast = &workerCase{id: fmt.Sprintf("f%d", id), a: 0, flags: "opt", src: fastSrc}
+		pc.prof = &workerCase{id: fmt.Sprintf("p%d", id), a: 0, flags: "opt", src: profSrc}
 		pcs = append(pcs, pc)
 		fastCases = append(fastCases, pc.fast)
 		profCases = append(profCases, pc.prof)
@@ -391,6 +407,45 @@ func runC06(c *Ctx) {
 		}
 	}
 	c.extra["pipelines_with_observed_parallel_switch"] = switched
+	// the sequential result is also what the eager library specification (C07) gives: the all-fast run of every
+	// pipeline is compared with the reference semantics over that specification (host functions written as identity)
+	{
+		fgOff := newValueFG(false)
+		var reqs []string
+		var which []*pipeCase
+		for _, pc := range pcs {
+			if pc.multi || strings.HasPrefix(pc.fast.outcome, "PANIC") || pc.fast.outcome == "CRASH" || pc.fast.outcome == "TIMEOUT" {
+				continue
+			}
+			pure := strings.NewReplacer("quick(", "(", "slow(", "(", "gate(", "(", "barrier(", "(").Replace(pc.fast.src)
+			ast, err := parseUnoptimized(fgOff, pure, []string{"a"})
+			if err != nil {
+				continue
+			}
+			var d astDump
+			d.dump(ast, 0)
+			if d.unmodelled != "" {
+				c.Count("spec-reference:unmodelled-ast")
+				continue
+			}
+			var ab strings.Builder
+			argTokens(value.Int(0), &ab)
+			reqs = append(reqs, fmt.Sprintf("SPEC\t%d\t%s\t%s\t%s", 200000, cps("a"), ab.String(), d.b.String()))
+			which = append(which, pc)
+		}
+		for i, mo := range c.Model(reqs) {
+			pc := which[i]
+			c.Count("spec-reference:" + strings.SplitN(mo, " ", 2)[0])
+			if mo == "BADREQ" || mo == "UNMODELLED" || mo == "FUEL" {
+				continue
+			}
+			if mo != pc.fast.outcome {
+				c.disagree++
+				c.Violation("sequential-differs-from-library-spec", "the sequential run of the pipeline differs from the reference semantics over the eager library specification",
+					map[string]any{"program": pc.fast.src, "sequential_outcome": trunc(pc.fast.outcome, 300), "library_spec": trunc(mo, 300), "request": reqs[i]})
+			}
+		}
+	}
 }
 
 func trunc(s string, n int) string {
@@ -432,6 +487,13 @@ func init() {
 		// forty fresh lists with spare capacity, each appended to for the first time by workers leaving a barrier together
 		"numbers(40).map(r -> let base = [r, r].append(r); numbers(40).map(e -> let t = @C(e); if e < 20 then t else base.append(@B(t)).sum()).sum()).sum()",
 		"numbers(30).map(r -> let sh = numbers(20).map(x -> x + r); numbers(40).map(e -> let t = @C(e); if e < 20 then t else sh[@B(t) % 20]).sum()).sum()",
+		// a list that failed while it was materialised fails again when it is looked at again (no truncated list is kept)
+		"let q = numbers(40).map(e -> if e = 25 then throw(\"x\") else @C(e)); [try q.size() catch 0 - 1, try q.size() catch 0 - 2, try q.sum() catch 0 - 3, try q.top(3).sum() catch 0 - 4].string()",
+		"let q = numbers(30).number((n, e) -> [1, 2, 3][e - 20]); [try q.eval().size() catch 0 - 1, try q[3] catch 0 - 2, try q.reverse().first() catch 0 - 3, try q.size() catch 0 - 4].string()",
+		"[4, 2, 0, 5].map(x -> 20 % x).size()",
+		// two concatenations from one materialised head with spare capacity
+		"let q = numbers(5).map(e -> @C(e) + 1); let n0 = q.size(); let x1 = q + [100]; let x2 = q + [200]; [x1.string(), x2.string(), n0].string()",
+		"let q = [1, 2].append(3); let x1 = q + [100]; let x2 = q + [200]; (x1.map(e -> @C(e))).merge(x2.map(e -> @C(e)), (p, r) -> p < r).string()",
 		// an error behind the point where the consumer stops, inside the read-ahead of the workers
 		"numbers(100).map(e -> if e = 50 then throw(\"x\") else @C(e)).top(45).size()",
 		"numbers(100).map(e -> if e = 40 then throw(\"x\") else @C(e)).top(38).sum()",
